@@ -62,6 +62,13 @@ CHECKS.update({
    technique="Lean 4 state-machine theorems over regenerated reset tables + history correspondence against pristine processes",
    ref="DESIGN.md section 4, C14"),
 })
+CHECKS.update({
+ "C17": dict(
+   text="Proof: refParse_print — the reference precedence parser (recursive descent on the left-factored tower, all 10 binary levels, ?:, assignment, unary, casts, postfix, calls) inverts the minimal-parenthesis printer for ALL expression trees (unbounded depth), printer injectivity, precedence/associativity lemmas (a-b-c, a=b=c, ?: right-assoc, -a*b, (T)a+b, a&b&&c, !a==b); kernel-decided shape facts about the REGENERATED grammar (tower levels in C's order, left recursion, operator spellings agreeing with the reference parser's table, terminal priorities, the two if-alternatives). Tie: translator (Lark's own loader -> Gen/GrammarGen.lean) + correspondence with Lark: all 256 ordered binary-operator pairs (exhaustive) and random token strings (random parentheses and spacing, every operand token class) parsed by the real parser and the Lean reference parser; token classification; statement nests; texts re-parsed in fresh processes per PYTHONHASHSEED through both parser construction sites. Partial: Earley ambiguity resolution across hash seeds is third-party runtime behaviour (sampled).",
+   note=TB + "reference parser/printer Model/Grammar.lean stands for 'the structure C prescribes'; lark is observed by behaviour.",
+   technique="Lean 4 parser/printer round-trip theorem + decide over the regenerated grammar + correspondence with Lark",
+   ref="DESIGN.md section 4, C17"),
+})
 NOT_YET = {}
 ALL = [f"C{i:02d}" for i in range(1, 21)]
 def main():
